@@ -428,6 +428,24 @@ def c16(run):
         run.disagree("P-sched[mp]", {"step": "installing the recording lists / condition stand-ins under the *_mp names"},
                      "four lists and four conditions as plain attributes of the instance", "%s: %s" % (type(e).__name__, str(e)[:200]),
                      ["C16: the multiprocessing copies use per-instance lists created at initialisation"])
+    # ---- (3b) I/O failures through the multiprocessing code paths: same outcome, files and (empty) lists as in threading mode
+    try:
+        menu13 = cf.load_menu("menus13.json")["scenarios"]
+        pick13 = [s_ for s_ in menu13 if s_["call"].split()[0] in ("tag", "so", "del", "sm")]
+        rng.shuffle(pick13)
+        for s_ in pick13[: (6 if quick else 40)]:
+            setup_, call_ = cf.parse_history(s_["setup"]), cf.parse_call(s_["call"])
+            for k_ in range(s_["sites"]):
+                ra = cf.run_faulted(Universe(), setup_, call_, k_, False, mode="th")
+                rb = cf.run_faulted(Universe(), setup_, call_, k_, False, mode="mp")
+                run.case("P-fault[th=mp]", (s_["id"], k_), sample={"projection": "P-fault[th=mp]", "setup": s_["setup"], "call": s_["call"], "site": k_, "outcome": ra["outcome"]})
+                if (ra["outcome"], cf.canon_tmp(ra["state"]), ra["locks"]) != (rb["outcome"], cf.canon_tmp(rb["state"]), rb["locks"]):
+                    run.violation({"kind": "mode-differs-under-fault", "call": call_["op"]},
+                                  "[%s] after [%s] with a one-off failure at site %d %s: threading mode gives %s %s %s, multiprocessing mode gives %s %s %s" % (
+                                      s_["call"], s_["setup"], k_, ra["fired"], ra["outcome"], ra["state"], ra["locks"], rb["outcome"], rb["state"], rb["locks"]),
+                                  {"scenario": s_["id"], "setup": s_["setup"], "call": s_["call"], "site": k_, "persistent": False})
+    except Exception as e:  # noqa: BLE001
+        run.disagree("P-fault[th=mp]", {"step": "fault runs in multiprocessing mode"}, "runs", "%s: %s" % (type(e).__name__, str(e)[:200]), ["C16"])
     # ---- (4) real forked worker processes contending on shared pids and cids
     rounds = 2 if quick else 10
     for rnd in range(rounds):
